@@ -6,7 +6,8 @@ import (
 	e "github.com/aml-org/amf-custom-validator/pkg/events"
 )
 
-func ProcessInput(jsonldText string, debug bool, receiver *chan e.Event) (any, error) {
+func ProcessInput(jsonldText string, debug bool, receiver *chan e.Event) (normalized any, err error) {
+	defer recoverAsError(&err)
 	dispatchEvent(e.NewEvent(e.InputDataParsingStart), receiver)
 	decoder := json.NewDecoder(bytes.NewBuffer([]byte(jsonldText)))
 	decoder.UseNumber()
